@@ -321,6 +321,8 @@ def rule_negative(ctx, rep):
 
 META["explanation"] += " " + 'Both flavours of the header (x86 asm and compiler builtins) are analysed on every run; literal identity operands (add 0, or 0, and ~0, xchg 0, cmpxchg(0,0)) are still one locked RMW and, where documented, a full barrier.'
 
+META["explanation"] += " " + 'Also (round 13): every asm read-modify-write declares *addr as read and written ("+m", C20.W9) - the write-only form lets gcc delete the plain store that initialised the location (genuine defect, fixed in /repo 0fd784d).'
+
 RULES = [
     ("C20.W7", rule_cmpd),
     ("C20.W8", rule_const),
